@@ -73,7 +73,7 @@ var kinds = []string{"cpk", "evk", "gal", "rlk"}
 func cases(tier string, seed int64) []eng.Case {
 	r := eng.NewRand("c14-cases", seed)
 	var out []eng.Case
-	nsets, nrej := 56, 16
+	nsets, nrej := 88, 24
 	logNs := []int{4, 4, 5, 5, 6}
 	if tier == "thorough" {
 		nsets, nrej = 640, 120
@@ -149,7 +149,7 @@ func cases(tier string, seed int64) []eng.Case {
 func init() {
 	eng.Register(&eng.Monitor{
 		ID: "C14", Level: "exploration",
-		Rule: "cases = (protocol in {cpk, evk, gal, rlk}) x rlwe parameter set (ring type, logN 4..6 (..8 thorough), 1..5 Q primes of equal or deliberately unequal sizes 30..60 bits, 0..2 P primes, secret distribution) x party count 1..8 (cycled so that every count occurs); inside a case evaluation-key parameters (LevelQ, LevelP, BaseTwoDecomposition 0 or 1..30) are drawn, every party (fresh or ShallowCopy-ed protocol instance) reads its own CRS instance with a common call sequence, generates its share(s), and the shares are aggregated under ALL permutations x ALL binary tree shapes for N<=4, all 14 shapes x sampled permutations for N=5, sampled (permutation, shape) pairs above, leaves taken at random from memory or from a serialisation round trip, output aliased at random; each aggregate is compared with the harness' exact sum; the final key is checked component-wise against the ideal secret and then used by the single-party encryptor/evaluator (all Galois elements for ring degree <= 32, sampled above; both rounds of the rlk protocol); 'reject' cases feed AggregateShares / Gen*Key with mismatched Galois element, LevelQ, LevelP, BaseTwoDecomposition. distinct keys: agg/(protocol, round, chain, N, lq, lp, w, permutation, shape) — non-trivial iff N>=2 and the plan is not the index-order left fold on in-memory shares (the only plan the stock test runs); use/(protocol, chain, N, lq, lp, w, ct level, NTT flag, Galois element) — non-trivial iff N>=2 and the worst-case bound is below Q_level/8 (so a wrong key shows as a bound violation); reject/(protocol, kind, placement) — always non-trivial.",
+		Rule:  "cases = (protocol in {cpk, evk, gal, rlk}) x rlwe parameter set (ring type, logN 4..6 (..8 thorough), 1..5 Q primes of equal or deliberately unequal sizes 30..60 bits, 0..2 P primes, secret distribution) x party count 1..8 (cycled so that every count occurs); inside a case evaluation-key parameters (LevelQ, LevelP, BaseTwoDecomposition 0 or 1..30) are drawn, every party (fresh or ShallowCopy-ed protocol instance) reads its own CRS instance with a common call sequence, generates its share(s) (into fresh or re-used share buffers), and the shares are aggregated under ALL permutations x ALL binary tree shapes for N<=4, all 14 shapes x 4 permutations (all 120 in the thorough tier) for N=5, 14 (50 thorough) sampled (permutation, shape) pairs above, leaves taken at random from memory or from a serialisation round trip, output aliased at random; each aggregate is compared with the harness' exact sum; the final key is checked component-wise against the ideal secret and then used by the single-party encryptor/evaluator (all Galois elements for ring degree <= 32, sampled above; both rounds of the rlk protocol); 'reject' cases feed AggregateShares / Gen*Key with mismatched Galois element, LevelQ, LevelP, BaseTwoDecomposition. distinct keys: agg/(protocol, round, chain, N, lq, lp, w, Galois element, permutation, shape) — non-trivial iff N>=2 and the plan is not the index-order left fold on in-memory shares (the only plan the stock test runs); use/(protocol, chain, N, lq, lp, w, ct level, NTT flag, Galois element) — non-trivial iff N>=2 and the worst-case bound is below Q_level/8 (so a wrong key shows as a bound violation); reject/(protocol, kind, placement) — always non-trivial.",
 		Cases: cases,
 		Assumptions: []string{
 			"worst-case bounds: |e_key|inf <= N*B for collective pk/evk/Galois keys; <= 2*c*(N*H)*(N*B)+N*B for the collective relinearisation key (the documented noise form s*e0+u*e1+e2; c=2 in the conjugate-invariant ring); B=floor(bound(Xe)+1/2), H=worst-case l1 norm of one secret; key-switch bound as in C04 with B replaced by the key error and |s|_1 by N*H",
